@@ -226,6 +226,7 @@ SHARE_IDENT_P = 0.0              # share of channels of a 2nd+ frame type whose 
 NUMBERING_STARTS = (1, 1, 1, 1, 100, 127, 16000)      # first frame number of a frame type
 WIDE_TYPE_P = 0.0                # share of frame types with 100..140 scalar channels (and few frames)
 LONG_TYPE_P = 0.0                # share of frame types with 300..600 frames (and one or two scalar channels)
+FRAME_SHARE_IDENT_P = 0.0         # chance that the second frame type of a logical file repeats the identifier of the first (other copy number / origin)
 OTHER_IFLR_P = 0.0               # chance, after each frame, of an indirectly formatted record that is not frame data (types 1, 127, 128..255)
 
 _SPECIAL_F32 = (0x00000000, 0x80000000, 0x00000001, 0x807fffff, 0x00800000, 0x7f7fffff, 0xff7fffff, 0x7f800000, 0xff800000, 0x3eaaaaab,
@@ -303,7 +304,12 @@ def random_logpass_file(rng, max_frames=60, max_logical_files=2, max_types=3, ma
         ntypes = rng.choice([1, 1, 2, rng.randrange(1, max_types + 1)])
         all_channels = []
         shapes = {}                # frame type index -> 'wide' | 'long'
-        for ti, name in enumerate(_names(rng, ntypes, taken, FRAME_NAME_POOL)):
+        ft_names = _names(rng, ntypes, taken, FRAME_NAME_POOL)
+        if FRAME_SHARE_IDENT_P and len(ft_names) >= 2 and rng.random() < FRAME_SHARE_IDENT_P:
+            # two frame types whose object names differ in the copy number or the origin only (a re-recorded frame type)
+            o, c, i = ft_names[0]
+            ft_names[1] = (o, (c + 1 + rng.randrange(3)) % 256, i) if rng.random() < 0.6 else (o + 1 + rng.randrange(3), c, i)
+        for ti, name in enumerate(ft_names):
             nch = rng.choice([1, 2, 3, rng.randrange(1, max_channels + 1)])
             if WIDE_TYPE_P and rng.random() < WIDE_TYPE_P:
                 shapes[ti], nch = 'wide', rng.randrange(100, 141)
